@@ -79,7 +79,7 @@ def _known_struct(d, tname):
 
 def spec_dbc(d):
     cs = [spec_general(d)]
-    for name, proto, tname, _ in d["impls"]:
+    for name, proto, tname, *_ in d["impls"]:
         cs.append(_known_struct(d, tname))
     can = [(i, x) for i, x in enumerate(d["impls"]) if x[3] is not None]
     for (i, a), (j, b) in itertools.combinations(can, 2):
@@ -90,7 +90,7 @@ def spec_dbc(d):
 
 def spec_can_c(d):
     cs = [spec_general(d)]
-    for name, proto, tname, _ in d["impls"]:
+    for name, proto, tname, *_ in d["impls"]:
         cs.append(_known_struct(d, tname))
         # a CAN message wider than 64 bits is rejected
         for sn, fs in d["structs"]:
@@ -144,7 +144,8 @@ def build(d):
     fcp.structs = [Struct(name=n, fields=[StructField(fn, i, ty(t)) for i, (fn, t) in enumerate(fs)], meta=meta)
                    for n, fs in d["structs"]]
     fcp.enums = [_mk_enum(Enum, Enumeration, n, es, meta) for n, es in d["enums"]]
-    fcp.impls = [Impl(n, p, t, ({} if i is None else {"id": i}), [], meta) for n, p, t, i in d["impls"]]
+    fcp.impls = [Impl(x[0], x[1], x[2], dict(({} if x[3] is None else {"id": x[3]}), **(x[4] if len(x) > 4 else {})),
+                      [], meta) for x in d["impls"]]
     fcp.services = [Service(n, k, [], meta=meta) for k, n in enumerate(d["services"])]
     fcp.devices = [Device(n, ({} if s is None else {"services": list(s)}), meta) for n, s in d["devices"]]
     return fcp
@@ -236,6 +237,13 @@ def skeletons(tier):
                                      (S.A("i2"), "can", st[1][0], None)]
         return dict(structs=st, enums=[], impls=impls, services=[], devices=[])
 
+    def k_bind_bus(S):  # other extension fields next to the id (bus, device): the DBC rule compares frame ids only
+        st = [(S.A("s1"), [(S.A("f1"), U8)]), (S.A("s2"), [(S.A("f2"), U8)]), (S.A("s3"), [(S.A("f3"), U8)])]
+        impls = default_impls(st) + [(S.A("i1"), "can", st[0][0], S.I("id1", 0, 2047), {"bus": S.A("b1"), "device": S.A("d1")}),
+                                     (S.A("i2"), "can", st[1][0], S.I("id2", 0, 2047), {"bus": S.A("b2")}),
+                                     (S.A("i3"), "can", st[2][0], S.I("id3", 0, 2047), {"device": S.A("d3")})]
+        return dict(structs=st, enums=[], impls=impls, services=[], devices=[])
+
     def k_bodyless(S):  # bindings without any extension field or signal block (what a tree built by hand may hold)
         st = [(S.A("s1"), [(S.A("f1"), ("u", S.I("w1", 1, 64))), (S.A("f2"), ("u", S.I("w2", 1, 64)))])]
         impls = default_impls(st) + [(S.A("i1"), S.A("p1"), S.A("t1"), None), (S.A("i2"), S.A("p2"), S.A("t2"), None),
@@ -272,7 +280,7 @@ def skeletons(tier):
 
     sk = {"bodyless": k_bodyless, "size_compound": k_size_compound, "types": k_types, "fields": k_fields, "empty_struct": k_empty_struct, "enum": k_enum, "impls": k_impls,
           "devices": k_devices, "devices_nosvc": k_devices_nosvc, "bind": k_bind, "bind_noid": k_bind_noid,
-          "size": k_size}
+          "size": k_size, "bind_bus": k_bind_bus}
     if tier == "thorough":
         sk["combined"] = k_combined
         sk["three_structs"] = k_three_structs
@@ -372,10 +380,10 @@ def run_c09(tier: str) -> int:
     cases = []
     for name in sk:
         for plugin in ("general", "dbc", "can_c"):
-            if name in ("bind", "bind_noid") and plugin == "general":
+            if name in ("bind", "bind_noid", "bind_bus") and plugin == "general":
                 continue  # bindings to unknown structs are not constrained by the general rules: still run
             for variant in ((0, 1) if tier == "quick" else (0, 1, 2)):
-                if plugin != "general" and name not in ("bind", "bind_noid", "bodyless", "size", "size_compound", "impls", "types", "combined") and variant:
+                if plugin != "general" and name not in ("bind", "bind_noid", "bind_bus", "bodyless", "size", "size_compound", "impls", "types", "combined") and variant:
                     continue
                 cases.append((name, plugin, variant, tier))
     for name in ("bind", "bind_noid"):
